@@ -69,3 +69,72 @@ def game_inputs(v, known, n, stale=None, rng=None, tag=""):
 
 def is_superadditive(v, n, tol=0.0):
     return all(v[s] + v[t] <= v[s | t] + tol for u in range(1, 1 << n) for s, t in splits(u))
+
+
+class AutoGiven(dict):
+    """Inputs invented on demand, for the generic bounded stand-in of a scenario the engine could not decide.
+
+    A name the scenario asks for is drawn when it is first requested (and remembered, so the replay file carries
+    it): `<prefix>v<c>` names form one random game per prefix (superadditive; also monotone non-increasing when
+    `monotone`, which is inside both assumed classes), booleans are coin flips with a per-sample bias, integers are
+    taken near their lower limit, every other real is a small integer / dyadic number.  Samples that fail a
+    scenario's precondition are skipped by the caller (and counted)."""
+    auto = True
+
+    def __init__(self, rng, n, kind="int", monotone=False, negative=False):
+        super().__init__()
+        import re
+        self._rng, self._n, self._kind, self._monotone, self._negative = rng, n, kind, monotone, negative
+        self._games = {}
+        self._p = rng.choice([0.0, 0.2, 0.5, 0.8, 1.0, rng.random()])
+        self._re = re.compile(r"^(.*?)v(\d+)$")
+
+    def _small(self):
+        r = self._rng
+        x = float(r.randint(-6, 9))
+        if self._kind == "dyadic":
+            x /= 8.0
+        elif self._kind == "float":
+            x *= r.uniform(0.1, 2.7)
+        return x
+
+    def draw_real(self, name):
+        if name in self:
+            return self[name]
+        m = self._re.match(name)
+        if m and self._n and int(m.group(2)) < (1 << self._n):
+            g = self._games.get(m.group(1))
+            if g is None:
+                g = self._games[m.group(1)] = superadditive_game(self._rng, self._n, self._kind, negative=self._negative,
+                                                                   monotone=self._monotone)
+            v = g[int(m.group(2))]
+        else:
+            v = self._small()
+        self[name] = v
+        return v
+
+    def draw_bool(self, name):
+        if name not in self:
+            self[name] = self._rng.random() < self._p
+        return self[name]
+
+    def draw_int(self, name, lo, hi):
+        if name not in self:
+            lo = 0 if lo is None else lo
+            top = lo + 4 if hi is None else hi
+            self[name] = self._rng.randint(lo, max(lo, top))
+        return self[name]
+
+    def draw_bv(self, name, w):
+        if name not in self:
+            self[name] = self._rng.getrandbits(w) if self._rng.random() < 0.7 else self._rng.choice([0, 1, (1 << w) - 1, 1 << (w - 1)])
+        return self[name]
+
+
+def auto_inputs(rng, params, count):
+    n = params.get("n") if isinstance(params.get("n"), int) else None
+    for i in range(count):
+        # integers and dyadic numbers only: the scenarios compare the code with exact specifications, and on arbitrary
+        # doubles an exact test inside the code (`width == 0`, ties between rewards) and its tolerant counterpart in the
+        # scenario may legitimately disagree - that would be an alarm of the stand-in, not of the code
+        yield AutoGiven(rng, n, kind=("int", "dyadic")[i % 2], monotone=(i % 4 < 2), negative=(i % 4 == 1))
